@@ -6,7 +6,7 @@ CONFIG = {'gen': ['SmbCommands'],
          'two cases of three -> the bytes the real Marshal emits vs the bytes of the MS-CIFS encoder written in Lean from the declared '
          'field list (Spec/Cifs.lean). distinct = distinct line; non-trivial = the implementation produced bytes Header: smb.hdr = '
          'Header.Marshal on explicit values of every header field (boundary-biased, byte-distinct) against the 32-byte MS-CIFS 2.2.3.1 '
-         'layout written in the specification. smb.hdrsf: the header with each of the three interpretations of SecurityFeatures (reserved bytes, security signature, connectionless Key/CID/SequenceNumber) against the MS-CIFS 2.2.3.1 layout. A decoy object of the same command type is marshalled and scribbled on (AndX block, parameter words, data bytes) before half of the encodings.',
+         'layout written in the specification.',
  'assumptions': ['the declared Go field types are taken as the transcription of MS-CIFS (the MS-CIFS PDF in the repository is empty in '
                  'this sandbox)',
                  'which declared fields live in the parameter block and which in the data block is read off the extracted marshal program'],
@@ -28,23 +28,23 @@ CONFIG = {'gen': ['SmbCommands'],
                'andx_block_eq_spec for the AndX block: command, reserved, offset as MS-CIFS has them unless the two bytes of the offset '
                'differ — the offset goes out big-endian, finding be:AndXOffset, andx_offset_big_endian_counterexample, '
                'andx_offset_differs_iff). The kernel decides Conforms on the 115 regenerated programs: all conform except WriteRequest '
-               '(data buffer ahead of the parameter block) and six structures that never emit a declared field (non_conforming_commands, '
-               'core_non_conforming_commands, commands_dropping_fields: LockAndReadResponse.Reserved, NegotiateRequest.WordCount, '
-               'NegotiateResponse.ServerName, OpenAndxResponse.NMPipeStatus/Reserved, QueryInformationResponse.Reserved, '
-               'ReadResponse.Reserved); of the ten programs with loops or conditional fields (commands_outside_straight_line) five pass '
-               'ConformsLists (lists_conforming_commands: FindResponse, FindUniqueResponse, LockingAndxRequest, OpenAndxRequest, '
-               'TransactionRequest) and three ConformsOptional (optional_conforming_commands: WriteAndCloseRequest, WriteAndxRequest, '
+               '(data buffer ahead of the parameter block; non_conforming_commands, core_non_conforming_commands); no structure drops a '
+               'declared field any more (commands_dropping_fields = []: the six that did were repaired in the repository, '
+               'fixes/C04-*.diff); of the fourteen programs with loops, conditional fields or literal bytes '
+               '(commands_outside_straight_line) eight pass ConformsLists (lists_conforming_commands: FindResponse, FindUniqueResponse, '
+               'LockAndReadResponse, LockingAndxRequest, OpenAndxRequest, OpenAndxResponse, QueryInformationResponse, TransactionRequest) '
+               'and four ConformsOptional (optional_conforming_commands: ReadRawRequest, WriteAndCloseRequest, WriteAndxRequest, '
                'WriteRawRequest), for which conforms_lists_sound / conforms_optional_sound (+ _at, _std; conforms_ext_shapes; '
                'std_nested_list_conforms, list_element_types) prove, for all field values, that the emitted bytes are those of '
                "Spec.Cifs.encodeLists (an array is the concatenation of its elements' encodings) / Spec.Cifs.encodeOptional (short form "
-               'for a zero field, long form otherwise); ReadRawRequest (a field under a condition on the word count Marshal is still '
-               'building) and WriteRequest stay outside (commands_outside_proved_fragments) and are covered by the differential run only. '
-               'Nested types: FILETIME, SMB_TIME, SMB_DATE, SMB_NMPIPE_STATUS, LOCKING_ANDX_RANGE64, OEM_STRING and the dialect list '
-               'conform for all values (std_nested_conforms, dialects_eq_spec), SMB_STRING for formats 1, 2, 4, 5 (smb_string_conforms); '
-               'SMB_FILE_ATTRIBUTES is big-endian and SMB_STRING format 0x03 carries a length word '
-               '(file_attributes_big_endian_counterexample, smb_string_format3_counterexample, smb_string_format3_never_conforms). On '
-               'every run the bytes emitted by the real code are compared with Spec.Cifs.encode / encodeLists / encodeOptional on '
-               'byte-distinct values for all 114 commands.',
+               'for a zero field, long form otherwise); NegotiateResponse (the literal two-byte terminators of its two null-terminated '
+               'strings, of which the encoders over the declared field list have no notion) and WriteRequest stay outside '
+               '(commands_outside_proved_fragments) and are covered by the differential run only. Nested types: FILETIME, SMB_TIME, '
+               'SMB_DATE, SMB_NMPIPE_STATUS, LOCKING_ANDX_RANGE64, OEM_STRING and the dialect list conform for all values '
+               '(std_nested_conforms, dialects_eq_spec), SMB_STRING for formats 1, 2, 4, 5 (smb_string_conforms); SMB_FILE_ATTRIBUTES is '
+               'big-endian and SMB_STRING format 0x03 carries a length word (file_attributes_big_endian_counterexample, '
+               'smb_string_format3_counterexample, smb_string_format3_never_conforms). On every run the bytes emitted by the real code are '
+               'compared with Spec.Cifs.encode / encodeLists / encodeOptional on byte-distinct values for all 114 commands.',
  'level_note': 'Trusted: Lean kernel; axioms propext, Classical.choice, Quot.sound; extractor and IR semantics tied by differential '
                'testing (bounded); the MS-CIFS reading in Spec/Cifs.lean is hand-written from the rules of the specification (it places '
                'only the declared fields that some statement emits, which is why dropped fields are reported by Conforms and not by the '
